@@ -593,6 +593,13 @@ func (ef *Effects) followCall(g ssa.Value, c ssa.CallInstruction, v ssa.Value, s
 		return
 	}
 	name := callee.String()
+	if name == "(golang.org/x/text/unicode/norm.Form).Append" || name == "(golang.org/x/text/unicode/norm.Form).AppendString" {
+		// f.Append(dst, …) writes behind len(dst) when dst has spare capacity, like append
+		if argIdx == 1 {
+			addWrite(g, c, "referent", "destination of "+callee.Name()+" (may write into spare capacity)")
+		}
+		return
+	}
 	if strings.HasPrefix(name, "(*math/big.Int).") {
 		m := callee.Name()
 		switch {
